@@ -390,6 +390,23 @@ mod verif_kani_wb {
     // ------------------------------------------------------------------ record encoder (U5)
     use crate::storage::format::{FormatV1, FormatV2};
 
+    // Vec<u8>::resize as one memset (CBMC otherwise unrolls ~4000 single-byte pushes)
+    fn stub_resize<T: Clone, A: std::alloc::Allocator>(v: &mut Vec<T, A>, new_len: usize, value: T) {
+        assert!(std::mem::size_of::<T>() == 1, "resize stub: byte vectors only");
+        let len = v.len();
+        if new_len > len {
+            let extra = new_len - len;
+            v.reserve(extra);
+            unsafe {
+                let byte = *(&value as *const T as *const u8);
+                std::ptr::write_bytes(v.as_mut_ptr().add(len) as *mut u8, byte, extra);
+                v.set_len(new_len);
+            }
+        } else {
+            v.truncate(new_len);
+        }
+    }
+
     // independent statement of the serialized extent: documented layout, zero padded
     fn expected_byte(i: usize, v2: bool, key: &[u8], value: &[u8], ts: u64, expiry: u64) -> u8 {
         let k = key.len();
@@ -434,7 +451,8 @@ mod verif_kani_wb {
     }
 
     #[kani::proof]
-    #[kani::unwind(4100)]
+    #[kani::unwind(12)]
+    #[kani::stub(std::vec::Vec::resize, stub_resize)]
     #[kani::stub(parking_lot::RawRwLock::lock_shared_slow, pl_lock_shared_slow)]
     #[kani::stub(parking_lot::RawRwLock::lock_exclusive_slow, pl_lock_exclusive_slow)]
     #[kani::stub(parking_lot::RawRwLock::unlock_shared_slow, pl_unlock_shared_slow)]
@@ -446,7 +464,8 @@ mod verif_kani_wb {
     }
 
     #[kani::proof]
-    #[kani::unwind(4100)]
+    #[kani::unwind(12)]
+    #[kani::stub(std::vec::Vec::resize, stub_resize)]
     #[kani::stub(parking_lot::RawRwLock::lock_shared_slow, pl_lock_shared_slow)]
     #[kani::stub(parking_lot::RawRwLock::lock_exclusive_slow, pl_lock_exclusive_slow)]
     #[kani::stub(parking_lot::RawRwLock::unlock_shared_slow, pl_unlock_shared_slow)]
